@@ -160,7 +160,7 @@ func (g *gen) genFunc(typs []types.Type) error {
 		p.P("func %s(this, that struct {", name)
 		p.In()
 		for _, fieldStr := range fieldStrs {
-			p.P(fieldStr)
+			p.P("%s", fieldStr)
 		}
 		p.Out()
 		p.P("}) bool {")
@@ -247,7 +247,7 @@ func (g *gen) genStatement(typ types.Type, this, that string) error {
 				if i == 0 {
 					p.In()
 				}
-				p.P(fieldStr)
+				p.P("%s", fieldStr)
 			}
 			p.Out()
 			p.Out()
@@ -288,7 +288,7 @@ func (g *gen) genStatement(typ types.Type, this, that string) error {
 				p.P("return %s", fieldStr)
 				p.In()
 			} else {
-				p.P(fieldStr)
+				p.P("%s", fieldStr)
 			}
 		}
 		p.Out()
